@@ -520,6 +520,24 @@ func (bm *booksModel) melt(hw *histWorld, w *bWallet, m *bMint, amt uint64, quot
 	bm.compare(hw, Render(op), w, ma, err, stateCode(state), err == nil, hw.b.lastTrace, "exact")
 }
 
+// meltAgain: Melt of a quote the model already knows (a retry).
+func (bm *booksModel) meltAgain(hw *histWorld, w *bWallet, m *bMint, quote, outcome, state string, err error) {
+	if !bm.active(hw) {
+		return
+	}
+	q, ok := bm.meltQ[quote]
+	if !ok {
+		bm.lose(hw, "melt-again", "quote unknown to the model")
+		return
+	}
+	op := L(A("melt"), I(hw.mw(w)), N(q), lnSx(meltScript(outcome)), hw.selectionThisOp(nil))
+	ma, ok := bm.ask(hw, op)
+	if !ok {
+		return
+	}
+	bm.compare(hw, Render(op), w, ma, err, stateCode(state), err == nil, hw.b.lastTrace, "exact")
+}
+
 func (bm *booksModel) checkMelt(hw *histWorld, w *bWallet, m *bMint, quote, res, state string, err error) {
 	if !bm.active(hw) {
 		return
